@@ -371,6 +371,7 @@ def program(r, size=3):
 # stage 10: higher-order functions: functions (top-level, local closures, function parameters) passed to function
 #           parameters and called there.
 # stage 11: lambda expressions as arguments.
+# stage 12: functions that return closures (over their parameters and a mutable local), passed on to function parameters.
 
 class FragGen:
     def __init__(self, r, stage=1):
@@ -387,6 +388,10 @@ class FragGen:
         r = self.r
         h, n = r.choice(env["hofs"])
         gs = [f for f, k in env.get("funs", []) if k == 1]
+        if self.stage >= 12 and env.get("makers") and r.random() < 0.5:
+            # stage 4g: the closure a function returns
+            g = "%s(%s)" % (r.choice(env["makers"]), str(r.randint(0, 9)) if r.random() < 0.5 or not env["ints"] else r.choice(env["ints"]))
+            return "%s(%s)" % (h, ", ".join([g] + [str(r.randint(0, 3)) if r.random() < 0.5 else self.int_expr(env, 0) for _ in range(n)]))
         if self.stage >= 11 and (not gs or r.random() < 0.5):
             # stage 4f: a lambda expression as the argument; it sees (and may change) the variables in scope
             z = self.fresh("z")
@@ -553,7 +558,7 @@ class FragGen:
                     env["bools"].append(g)
         if self.stage >= 4:
             # stage 3b: top-level functions (parameters, value of the last expression, recursion), called by name
-            for _ in range(self.r.randint(1, 3)):
+            for _ in range(self.r.randint(1, 3) if self.stage < 12 else self.r.randint(3, 5)):
                 out += self.function(env)
         out.append("start :: fn do")
         if self.stage >= 7:
@@ -604,6 +609,11 @@ class FragGen:
             m = self.fresh("m")
             out.append("%s%s := %s" % (pad, m, self.int_expr(env, 1)))
             env["ints"].append(m); env["muts"].append(m)
+        if self.stage >= 12 and env.get("makers") and env.get("hofs"):
+            for _ in range(r.randint(1, 2)):
+                h, n = r.choice(env["hofs"])
+                g = "%s(%s)" % (r.choice(env["makers"]), r.choice(env["ints"] + [str(r.randint(0, 9))]))
+                out.append("%sprint(%s(%s))" % (pad, h, ", ".join([g] + [self.int_expr(env, 0) for _ in range(n)])))
         for _ in range(r.randint(1, 3)):
             lf = self.fresh("lf")
             nparams = r.randint(0, 2)
@@ -629,8 +639,36 @@ class FragGen:
         out += self.block(env, 2, ind, r.randint(1, 4))
         return out
 
+    def maker(self, env):
+        # stage 4g: a function that returns a closure over its parameter and (sometimes) a mutable local of this call
+        r = self.r
+        f = self.fresh("mk")
+        p = self.fresh("p")
+        out = ["%s :: fn %s: int -> fn int -> int do" % (f, p)]
+        if env.get("makers") and r.random() < 0.3:
+            out.append("  %s(%s + %d)" % (r.choice(env["makers"]), p, r.randint(0, 9)))
+        else:
+            fenv = {"ints": list(env["ints"]) + [p], "bools": list(env["bools"]), "muts": [], "funs": list(env.get("funs", [])),
+                    "hofs": list(env.get("hofs", []))}
+            if r.random() < 0.7:
+                c = self.fresh("c")
+                out.append("  %s := %s" % (c, r.choice([p, str(r.randint(0, 9)), "%s * 2" % p])))
+                fenv["ints"].append(c); fenv["muts"].append(c)
+            z = self.fresh("z")
+            fenv["ints"].append(z)
+            out.append("  fn %s: int -> int do" % z)
+            if fenv["muts"]:
+                out.append("    %s += %s" % (fenv["muts"][0], r.choice([z, "1", p])))
+            out.append("    %s" % self.int_expr(fenv, 1))
+            out.append("  end")
+        out.append("end")
+        env.setdefault("makers", []).append(f)
+        return out
+
     def function(self, env):
         r = self.r
+        if self.stage >= 12 and env.get("hofs") and r.random() < 0.5:
+            return self.maker(env)
         f = self.fresh("f")
         nparams = r.randint(0, 3)
         params = [self.fresh("p") for _ in range(nparams)]
